@@ -415,8 +415,40 @@ def container_case(suite, ci):
            ("AggregateVerify(%s, list): messages of signers 2 and 3 swapped" % name, False,
             BL.verdict(C.AggregateVerify, mk(pks), [msgs[0], msgs[2], msgs[1]], agg)),
            ("AggregateVerify(list, %s): one signer short" % name, False, BL.verdict(C.AggregateVerify, pks[:2], mk(msgs[:2]), agg))]
+    if name == "list":
+        # the caller's own list objects, changed in place between calls
+        k4 = 0x4004
+        Lp, Lm, Ls = list(pks), list(msgs), list(sigs)
+        out.append(("AggregateVerify(lists) before the in-place change", True, BL.verdict(C.AggregateVerify, Lp, Lm, agg)))
+        Lp[2], Ls[2] = MB.sk_to_pk(k4), MB.sign(suite, k4, msgs[2])
+        agg2 = MB.aggregate(Ls)
+        out += [("AggregateVerify(same list objects, third key replaced in place, old aggregate)", False, BL.verdict(C.AggregateVerify, Lp, Lm, agg)),
+                ("AggregateVerify(same list objects, third key replaced in place, new aggregate)", True, BL.verdict(C.AggregateVerify, Lp, Lm, agg2)),
+                ("Aggregate(same list object, third signature replaced in place)", ("ok", agg2), BL.call(C.Aggregate, Ls))]
+        Lm[0] = b"another message"
+        out.append(("AggregateVerify(same list objects, first message replaced in place)", False, BL.verdict(C.AggregateVerify, Lp, Lm, agg2)))
+        # Aggregate: a list with an undecodable signature is refused, and so is every extension of it
+        bad = b"\x9a" + b"\x11" * 95
+        for lbl, lst, want in (("Aggregate(first two)", sigs[:2], ("ok", MB.aggregate(sigs[:2]))),
+                               ("Aggregate(first two + undecodable)", sigs[:2] + [bad], "raise"),
+                               ("Aggregate(first two + undecodable + third)", sigs[:2] + [bad, sigs[2]], "raise"),
+                               ("Aggregate(first two + undecodable) again", sigs[:2] + [bad], "raise"),
+                               ("Aggregate(all three)", sigs, ("ok", agg)),
+                               ("Aggregate(all three + first again)", sigs + sigs[:1], ("ok", MB.aggregate(sigs + sigs[:1]))),
+                               ("Aggregate(first two) again", sigs[:2], ("ok", MB.aggregate(sigs[:2])))):
+            o = BL.call(C.Aggregate, lst)
+            out.append((lbl, want, "raise" if o[0] == "raise" else o))
     if suite == "pop":
         same = [MB.sign("pop", k, MSG[0]) for k in sks]
+        if name == "list":
+            L = list(pks)
+            out.append(("FastAggregateVerify(list) before the in-place change", True, BL.verdict(C.FastAggregateVerify, L, MSG[0], MB.aggregate(same))))
+            L[2] = MB.sk_to_pk(0x4004)
+            new = MB.aggregate(same[:2] + [MB.sign("pop", 0x4004, MSG[0])])
+            out += [("FastAggregateVerify(same list object, third key replaced in place, old aggregate)", False,
+                     BL.verdict(C.FastAggregateVerify, L, MSG[0], MB.aggregate(same))),
+                    ("FastAggregateVerify(same list object, third key replaced in place, new aggregate)", True,
+                     BL.verdict(C.FastAggregateVerify, L, MSG[0], new))]
         out += [("FastAggregateVerify(%s)" % name, True, BL.verdict(C.FastAggregateVerify, mk(pks), MSG[0], MB.aggregate(same))),
                 ("FastAggregateVerify(%s): one key short" % name, False, BL.verdict(C.FastAggregateVerify, mk(pks[:2]), MSG[0], MB.aggregate(same))),
                 ("_AggregatePKs(%s)" % name, ("ok", MB.g1_bytes(BL.E1.mul(params.bls_g1(), sum(sks) % R_))), BL.call(C._AggregatePKs, mk(pks)))]
